@@ -660,6 +660,10 @@ def mixed_pseudo_cases(chk, n):
                           fw=rng.choice(["pydantic", "sqlmodel"]), layout="flat", kw={}))
     cases.append(dict(roots=[("Root", [{"f": 10 ** 400, "g": 1}, {"f": 1.5, "g": 2}])], envspec={}, policy=DR.POLICIES[1], fw="pydantic",
                       layout="flat", kw={}))
+    # a field that is null in one sample and a list holding only nulls in another: Optional[List[None]], which pydantic v1 does not
+    # accept None for (it validates None against the list shape when the element type is NoneType): listed known finding of C01
+    cases.append(dict(roots=[("Root", [{"t": None, "g": 1}, {"t": [None], "g": 2}])], envspec={}, policy=DR.POLICIES[1], fw="pydantic",
+                      layout="flat", kw={}))
     for i in range(n):
         a, b = pairs[i % len(pairs)]
         va = rng.choice(PSEUDO_LEAVES.get(a) or ["foo", "bar"])
